@@ -45,16 +45,19 @@ let () =
        | "dict" -> gres out_nlist (Model.go_decode_dict bs)
        | "bool" -> gres tok_of_bytes (Model.go_decode_boolean bs)
        | _ -> failwith "kind") | _ -> failwith "args");
-  (* "<cost of Go's walk> <cost of the specification decoder's walk>" *)
+  (* "<cost of Go's walk> <cost of the specification decoder's walk> <1 when a walk meets an empty run>" *)
   register "c04.go_rle_cost" (function [kind; w; b] ->
       let bs = bytes_of_tok b in
       let kd = match kind with "levels" -> 0 | "int32" -> 1 | "bool" -> 2 | _ -> failwith "kind" in
       hex_of_n (Model.go_rle_cost (n_of_int kd) (k_of w) bs) ^ " " ^ hex_of_n (Model.spec_rle_cost (n_of_int kd) (k_of w) bs)
+      ^ " " ^ tok_of_bool (Model.go_rle_empty_run (n_of_int kd) (k_of w) bs)
     | _ -> failwith "args");
   register "c04.go_delta_dec" (function [k; b] ->
       gres (fun (xs, rest) -> out_zlist xs ^ " " ^ tok_of_bytes rest) (Model.go_dbp_dec (k_of k) (bytes_of_tok b)) | _ -> failwith "args");
   register "c04.go_delta_cost" (function [sections; limit; b] ->
       hex_of_n (Model.dbp_sections_cost (nat_of_int (int_of_string sections)) (n_of_int (int_of_string limit)) (bytes_of_tok b)) | _ -> failwith "args");
+  register "c04.go_delta_quirk" (function [sections; k; b] ->
+      hex_of_n (Model.go_delta_quirk (nat_of_int (int_of_string sections)) (k_of k) (bytes_of_tok b)) | _ -> failwith "args");
   register "c04.go_dlba_dec" (function [b] ->
       gres (fun (data, offs) -> tok_of_bytes data ^ " " ^ out_nlist offs) (Model.go_dlba_dec (bytes_of_tok b)) | _ -> failwith "args");
   register "c04.go_dba_dec" (function [b] -> gres out_blist (Model.go_dba_dec (bytes_of_tok b)) | _ -> failwith "args")
